@@ -502,6 +502,57 @@ def translate_counter(source=None):
                 lines=dict(idle=[single_line(whiles[0].test, "arrayer loop")], dec=[single_line(dec, "decrement")]))
 
 
+def translate_lifecycle(source=None):
+    """redun/job_array.py: where JobArrayer sets / clears `_exit_flag`.  Returns the Coq clear_variant:
+    'ClearInStart' (start() clears it unconditionally before creating the thread) or
+    'ClearInStopIfAlive' (only stop() clears it, after joining a live thread); anything else fails closed."""
+    mod = load("redun/job_array.py", source)
+    cls = "JobArrayer"
+    c = find_class_node(mod, cls)
+    uses = []
+    for f in c.body:
+        if isinstance(f, (ast.FunctionDef, ast.AsyncFunctionDef)):
+            for n in ast.walk(f):
+                if isinstance(n, ast.Attribute) and n.attr == "_exit_flag":
+                    uses.append(f.name)
+    for fname in uses:
+        if fname not in ("__init__", "start", "stop", "_monitor_stale_jobs"):
+            fail(f"JobArrayer.{fname}: unexpected use of _exit_flag")
+    start = [src(s) for s in body_nodoc(find_func(mod, "start", cls))]
+    head = ["if not self.min_array_size:\n    return", "if self._monitor_thread.is_alive():\n    return"]
+    tail = ["self._monitor_thread = threading.Thread(target=self._monitor_stale_jobs, daemon=True)",
+            "self._monitor_thread.start()"]
+    if start == head + ["self._exit_flag.clear()"] + tail:
+        clear_in_start = True
+    elif start == head + tail:
+        clear_in_start = False
+    else:
+        fail(f"JobArrayer.start: unrecognised body {start!r}")
+    stop = body_nodoc(find_func(mod, "stop", cls))
+    if len(stop) != 2 or src(stop[0]) != "self._exit_flag.set()" or not isinstance(stop[1], ast.If) \
+            or stop[1].orelse or src(stop[1].test) != "self._monitor_thread.is_alive()":
+        fail("JobArrayer.stop: unrecognised body")
+    sb = [src(s) for s in stop[1].body]
+    if sb == ["self._monitor_thread.join()"]:
+        clear_in_stop = False
+    elif sb == ["self._monitor_thread.join()", "self._exit_flag.clear()"]:
+        clear_in_stop = True
+    else:
+        fail(f"JobArrayer.stop: unrecognised join branch {sb!r}")
+    if clear_in_start and not clear_in_stop:
+        return "ClearInStart"
+    if clear_in_stop and not clear_in_start:
+        return "ClearInStopIfAlive"
+    fail("JobArrayer: _exit_flag is cleared in neither / both of start() and stop() - no such variant is modelled")
+
+
+def find_class_node(mod, name):
+    for n in mod.body:
+        if isinstance(n, ast.ClassDef) and n.name == name:
+            return n
+    fail(f"class {name} not found")
+
+
 def translate(sources: dict | None = None, pins="file"):
     """Returns (coq_text, info). info[key] = {'variant', 'lines', 'file', 'locked', ...}."""
     if pins == "file":
@@ -529,6 +580,13 @@ def translate(sources: dict | None = None, pins="file"):
     out.append("Proof. reflexivity. Qed.")
     out.append("")
     info["_counter"] = cnt
+    life = translate_lifecycle((sources or {}).get("job_array"))
+    out.insert(4, "From RV Require Import Model.ArrLife.")
+    out.append(f"Definition gen_life : clear_variant := {life}.")
+    out.append(f"Lemma C10_tie_life : gen_life = {life}.")
+    out.append("Proof. reflexivity. Qed.")
+    out.append("")
+    info["_life"] = life
     return "\n".join(out), info
 
 
